@@ -2290,8 +2290,8 @@ static int32_t concatenate_dn(psPool_t *pool,
         ATTRIB_GIVEN_NAME,
         ATTRIB_SURNAME,
 #  endif
-#  ifdef USE_EXTRA_DN_ATTRIBUTES
         ATTRIB_DOMAIN_COMPONENT,
+#  ifdef USE_EXTRA_DN_ATTRIBUTES
         ATTRIB_EMAIL,
 #  endif
         ATTRIB_SERIALNUMBER,
